@@ -1464,3 +1464,234 @@ func goValuesOfScriptObjectsAreNotSilentlyNil(c *core.Ctx) {
 	}
 	c.Stat("interface_handouts", n)
 }
+
+// ---------------------------------------------------------------------------
+// defaultsDoNotReplaceWhatTheHostGave: the globals of a configuration start
+// with what the host gave (WithGlobal, WithGlobals) and are filled up with the
+// defaults.  The function that enters the defaults looks each name up first
+// and leaves a name alone that is there already: entered unconditionally, a
+// default of the same name replaces the host's value, which is then neither
+// represented in the script nor refused (WithGlobal("len", 5): len is the
+// builtin).
+func defaultsDoNotReplaceWhatTheHostGave(c *core.Ctx) {
+	p := c.P
+	root := p.Pkg("")
+	cfgT := core.MustType(root, "Config")
+	gi := fieldIdxByName(cfgT, "globals")
+	if gi < 0 {
+		core.Undecidedf("Config.globals not found")
+	}
+	n := 0
+	for _, fn := range repoFns(p, ".") {
+		// the function that ranges over the result of DefaultGlobals
+		ranges := false
+		for _, b := range fn.Blocks {
+			for _, in := range b.Instrs {
+				if rg, ok := in.(*ssa.Range); ok {
+					for _, o := range core.Origins(rg.X) {
+						if call, ok := o.(*ssa.Call); ok {
+							if cal := call.Call.StaticCallee(); cal != nil && cal.Name() == "DefaultGlobals" {
+								ranges = true
+							}
+						}
+					}
+				}
+			}
+		}
+		if !ranges {
+			continue
+		}
+		for _, mu := range updatesMapFieldAll(fn, cfgT, gi) {
+			n++
+			guarded := false
+			for _, b := range fn.Blocks {
+				for _, in := range b.Instrs {
+					lk, ok := in.(*ssa.Lookup)
+					if !ok || !lk.CommaOk || lk.Referrers() == nil {
+						continue
+					}
+					sameMap := false
+					for _, o := range core.Origins(lk.X) {
+						if u, ok := o.(*ssa.UnOp); ok && u.Op == token.MUL {
+							if fa, ok := u.X.(*ssa.FieldAddr); ok && fa.Field == gi && core.NamedOf(fa.X.Type()) == cfgT {
+								sameMap = true
+							}
+						}
+					}
+					if !sameMap || !(lk.Index == mu.Key || core.SameStorage(lk.Index, mu.Key)) {
+						continue
+					}
+					for _, r := range *lk.Referrers() {
+						ex, ok := r.(*ssa.Extract)
+						if !ok || ex.Index != 1 || ex.Referrers() == nil {
+							continue
+						}
+						for _, r2 := range *ex.Referrers() {
+							if iff, ok := r2.(*ssa.If); ok {
+								absent := iff.Block().Succs[1]
+								if absent == mu.Block() || absent.Dominates(mu.Block()) {
+									guarded = true
+								}
+							}
+						}
+					}
+				}
+			}
+			c.Check(guarded, core.SSAName(fn)+"|default-entered-only-where-the-name-is-free", p.Pos(mu.Pos()),
+				fn.Name()+" enters the default globals into the configuration"+ife(guarded, ", each only where the name is not taken yet", " whatever is there: a value that the host gave under the name of a default global is replaced by the default, silently (WithGlobal(\"len\", 5): the script sees the builtin)"))
+		}
+	}
+	if n == 0 {
+		core.Undecidedf("no function enters the result of DefaultGlobals into Config.globals")
+	}
+}
+
+// ---------------------------------------------------------------------------
+// removalsComeLast: a configuration is built up (the defaults, then what the
+// host replaces) and then cut down (what the host removes).  In that order a
+// removed name is gone whatever was put in its place; the other way round,
+// WithGlobalOverride("os", mod) next to WithoutGlobal("os.exit") hands the
+// script a module that still has exit.  In Config.init no function that
+// enters values into the globals is called after the one that deletes from
+// them.
+func removalsComeLast(c *core.Ctx) {
+	p := c.P
+	root := p.Pkg("")
+	cfgT := core.MustType(root, "Config")
+	gi := fieldIdxByName(cfgT, "globals")
+	var initFn *ssa.Function
+	for _, fn := range repoFns(p, ".") {
+		if fn.Name() == "init" && fn.Signature.Recv() != nil && core.NamedOf(fn.Signature.Recv().Type()) == cfgT {
+			initFn = fn
+		}
+	}
+	if initFn == nil || gi < 0 {
+		core.Undecidedf("Config.init / Config.globals not found")
+	}
+	deletes := func(fn *ssa.Function) bool {
+		for _, b := range fn.Blocks {
+			for _, in := range b.Instrs {
+				if ci, ok := in.(ssa.CallInstruction); ok {
+					if bi, ok := ci.Common().Value.(*ssa.Builtin); ok && bi.Name() == "delete" {
+						for _, o := range core.Origins(ci.Common().Args[0]) {
+							if u, ok := o.(*ssa.UnOp); ok && u.Op == token.MUL {
+								if fa, ok := u.X.(*ssa.FieldAddr); ok && fa.Field == gi && core.NamedOf(fa.X.Type()) == cfgT {
+									return true
+								}
+							}
+						}
+					}
+				}
+			}
+		}
+		return false
+	}
+	var removers, adders []ssa.Instruction
+	for _, b := range initFn.Blocks {
+		for _, in := range b.Instrs {
+			ci, ok := in.(ssa.CallInstruction)
+			if !ok {
+				continue
+			}
+			cal := ci.Common().StaticCallee()
+			if cal == nil || cal.Blocks == nil || !core.RepoFunc(cal) {
+				continue
+			}
+			if deletes(cal) {
+				removers = append(removers, in)
+			} else if len(updatesMapFieldAll(cal, cfgT, gi)) > 0 {
+				adders = append(adders, in)
+			}
+		}
+	}
+	if len(removers) == 0 || len(adders) == 0 {
+		core.Undecidedf("Config.init calls %d functions that delete from the globals and %d that enter into them", len(removers), len(adders))
+	}
+	bad := ""
+	for _, r := range removers {
+		for _, a := range adders {
+			if instrReaches(r, a) {
+				bad = calleeName(a.(ssa.CallInstruction).Common()) + " (at " + p.Pos(a.Pos()) + ") after " + calleeName(r.(ssa.CallInstruction).Common())
+			}
+		}
+	}
+	c.Check(bad == "", "..Config.init|removals-come-last", p.Pos(initFn.Pos()),
+		"Config.init builds the globals up and cuts them down"+ife(bad == "", ", in that order", "; it calls "+bad+": what is put in place after the removals is not looked at by them (a module given with WithGlobalOverride keeps the member that WithoutGlobal names)"))
+}
+
+// ---------------------------------------------------------------------------
+// assignmentTargetsAreEvaluatedBeforeTheValue: in `l[f()] = g()` and
+// `h().x = g()` the expressions of the target stand to the left of the value
+// and are evaluated first, as they are in the compound forms (`l[f()] += g()`).
+// The functions that compile an assignment to an item or an attribute compile
+// the value only after they have compiled the target's expressions; the
+// instruction that stores wants the value deepest on the stack, and the
+// operands are swapped into that order after all of them were computed.
+func assignmentTargetsAreEvaluatedBeforeTheValue(c *core.Ctx) {
+	p := c.P
+	cp := p.Pkg("compiler")
+	compT := core.MustType(cp, "Compiler")
+	disp := p.SSAFunc(core.Method(compT, "compile"))
+	if disp == nil {
+		core.Undecidedf("Compiler.compile not found")
+	}
+	n := 0
+	for _, fn := range repoFns(p, "compiler") {
+		if fn.Parent() != nil || len(fn.Params) < 2 {
+			continue
+		}
+		pt, ok := fn.Params[1].Type().(*types.Pointer)
+		if !ok {
+			continue
+		}
+		nt := core.NamedOf(pt.Elem())
+		if nt == nil || nt.Obj().Pkg() == nil || core.RelPkg(nt.Obj().Pkg()) != "ast" || (nt.Obj().Name() != "Assign" && nt.Obj().Name() != "SetAttr") {
+			continue
+		}
+		var values, targets []ssa.Instruction
+		for _, b := range fn.Blocks {
+			for _, in := range b.Instrs {
+				ci, ok := in.(ssa.CallInstruction)
+				if !ok || ci.Common().StaticCallee() != disp || len(ci.Common().Args) < 2 {
+					continue
+				}
+				for _, o := range originsThroughInterfaces(ci.Common().Args[1]) {
+					call, ok := o.(*ssa.Call)
+					if !ok {
+						continue
+					}
+					name := ""
+					if call.Call.IsInvoke() {
+						name = call.Call.Method.Name()
+					} else if cal := call.Call.StaticCallee(); cal != nil && cal.Signature.Recv() != nil {
+						name = cal.Name()
+					}
+					switch name {
+					case "Value":
+						values = append(values, in)
+					case "Left", "Index", "Object":
+						targets = append(targets, in)
+					}
+				}
+			}
+		}
+		if len(values) == 0 || len(targets) == 0 {
+			continue
+		}
+		for i, v := range values {
+			n++
+			ok := false
+			for _, t := range targets {
+				if t != v && instrDominates(t, v) {
+					ok = true
+				}
+			}
+			c.Check(ok, core.SSAName(fn)+"|target-before-value|"+sprintf("%d", i+1), p.Pos(v.Pos()),
+				fn.Name()+" compiles the value of the assignment"+ife(ok, " after the expressions of its target", " before any expression of its target: `l[f()] = g()` calls g first and f second, the other way round from `l[f()] += g()` and from the order in which they are written"))
+		}
+	}
+	if n < 3 {
+		core.Undecidedf("only %d value sites in functions that compile assignments to items and attributes", n)
+	}
+	c.Stat("assignment_value_sites", n)
+}
